@@ -8,7 +8,7 @@ os.chdir(os.path.dirname(os.path.dirname(os.path.abspath(__file__))))
 want = set(sys.argv[1:])
 bad = 0
 def run(patch, ids):
-    r = subprocess.run(["./bin/dvcheck", "check", "--patch", patch] + ids, capture_output=True, text=True)
+    r = subprocess.run([os.environ.get("DVCHECK", "./bin/dvcheck"), "check", "--patch", patch] + ids, capture_output=True, text=True)
     return r.returncode, r.stdout + r.stderr
 for f in sorted(glob.glob("seeded/*/meta.json")):
     m = json.load(open(f))
